@@ -1,1 +1,44 @@
-fn main(){}
+//! vharness: correspondence between /repo (linked in-process with `verif-hooks`) and the Lean
+//! model driver, plus per-property oracles used to search for replays (DESIGN.md §4.2, §5).
+mod c11;
+mod driver;
+mod geom;
+mod report;
+mod rng;
+mod util;
+
+use report::Report;
+
+fn main() {
+    let args: Vec<String> = std::env::args().collect();
+    let mut prop = String::new();
+    let mut tier = "quick".to_string();
+    let mut seed: u64 = 1;
+    let mut out = String::new();
+    let mut i = 1;
+    while i < args.len() {
+        match args[i].as_str() {
+            "--tier" => { tier = args[i + 1].clone(); i += 1; }
+            "--seed" => { seed = args[i + 1].parse().unwrap_or(1); i += 1; }
+            "--out" => { out = args[i + 1].clone(); i += 1; }
+            p => prop = p.to_string(),
+        }
+        i += 1;
+    }
+    // panics of the implementation are caught per case; keep the default hook quiet
+    std::panic::set_hook(Box::new(|_| {}));
+    let mut rep = Report::new(&prop, &tier, seed);
+    let r = match prop.as_str() {
+        "C11" => c11::run(&mut rep, &tier, seed),
+        other => Err(format!("no harness for property {other}")),
+    };
+    if let Err(e) = r {
+        rep.notes.push(format!("HARNESS-ERROR: {e}"));
+    }
+    let text = serde_json::to_string_pretty(&rep.to_json()).unwrap();
+    if out.is_empty() {
+        println!("{text}");
+    } else {
+        std::fs::write(&out, text).expect("write report");
+    }
+}
